@@ -561,13 +561,17 @@ class Interp:
         if isinstance(e.slice, ast.Slice):
             lo = self.ev(e.slice.lower, Env("?")) if isinstance(e.slice.lower, ast.Constant) else None
             hi = self.ev(e.slice.upper, Env("?")) if isinstance(e.slice.upper, ast.Constant) else None
-            if isinstance(v, (Obj, Sym)) and e.slice.step is None:
-                env = getattr(self, "_sub_env", None)
-                blo = lo if lo is not None or e.slice.lower is None or env is None else self.ev(e.slice.lower, env)
-                bhi = hi if hi is not None or e.slice.upper is None or env is None else self.ev(e.slice.upper, env)
-                r = self.hooks.subscript(self, v, blo, bhi, None, e)
-                if r is not NotImplemented:
-                    return r
+            env = getattr(self, "_sub_env", None)
+            if env is not None and e.slice.step is None and (isinstance(v, (Obj, Sym)) or (isinstance(v, (Tup, Lst)) and not getattr(v, "open", False))):
+                # bounds computed from concrete integers (i + 1) are evaluated in the current environment
+                blo = lo if lo is not None or e.slice.lower is None else self.ev(e.slice.lower, env)
+                bhi = hi if hi is not None or e.slice.upper is None else self.ev(e.slice.upper, env)
+                if isinstance(v, (Obj, Sym)):
+                    r = self.hooks.subscript(self, v, blo, bhi, None, e)
+                    if r is not NotImplemented:
+                        return r
+                elif all(x is None or (isinstance(x, Const) and isinstance(x.v, int)) for x in (blo, bhi)):
+                    return Lst(v.items[(blo.v if blo else None):(bhi.v if bhi else None)])
             if isinstance(v, (Tup, Lst)) and all(x is None or isinstance(x, Const) for x in (lo, hi)) and (
                 (e.slice.lower is None or lo is not None) and (e.slice.upper is None or hi is not None)
             ) and not getattr(v, "open", False):
